@@ -23,18 +23,49 @@ type solverCfg struct {
 	noBatch  bool
 }
 
-var patHead = regexp.MustCompile(`:pattern \(\((\S+)`)
+var patAll = regexp.MustCompile(`:pattern \(([^:]*)\)\)`)
 
-var preludeAxiomSyms [][]string
+// preludeAxiomSyms[i]: alternatives (one per :pattern); an alternative is the list of prelude
+// function symbols of that pattern, all of which must occur in the query for the axiom to be
+// relevant.
+var preludeAxiomSyms [][][]string
+
+var preludeFuncs = map[string]bool{}
 
 func init() {
-	for _, ax := range preludeAxioms {
-		var syms []string
-		for _, m := range patHead.FindAllStringSubmatch(ax, -1) {
-			syms = append(syms, m[1])
-		}
-		preludeAxiomSyms = append(preludeAxiomSyms, syms)
+	for _, m := range regexp.MustCompile(`\(declare-fun (\S+) `).FindAllStringSubmatch(preludeDecls, -1) {
+		preludeFuncs[m[1]] = true
 	}
+	for _, ax := range preludeAxioms {
+		var alts [][]string
+		for _, m := range patAll.FindAllStringSubmatch(ax, -1) {
+			set := map[string]bool{}
+			symbolsOf(m[1], set)
+			var syms []string
+			for s := range set {
+				if preludeFuncs[s] {
+					syms = append(syms, s)
+				}
+			}
+			alts = append(alts, syms)
+		}
+		preludeAxiomSyms = append(preludeAxiomSyms, alts)
+	}
+}
+
+func preludeRelevant(i int, syms map[string]bool) bool {
+	for _, alt := range preludeAxiomSyms[i] {
+		all := len(alt) > 0
+		for _, s := range alt {
+			if !syms[s] {
+				all = false
+			}
+		}
+		if all {
+			return true
+		}
+	}
+	return false
 }
 
 const preludeExtra = `(define-fun valRefsLE ((v Val) (a Int)) Bool (and (=> ((_ is VSlice) v) (<= (s-arr (vslice v)) a)) (=> ((_ is VMap) v) (<= (vmap v) a)) (=> ((_ is VBig) v) (<= (vbig v) a))))
@@ -72,12 +103,9 @@ func (c *FnCtx) queryText(o *Oblig, negate bool) string {
 	sb.WriteString(preludeExtra)
 	sb.WriteString(c.sorts.declText())
 	for i, ax := range preludeAxioms {
-		for _, s := range preludeAxiomSyms[i] {
-			if syms[s] {
-				sb.WriteString(ax)
-				sb.WriteString("\n")
-				break
-			}
+		if preludeRelevant(i, syms) {
+			sb.WriteString(ax)
+			sb.WriteString("\n")
 		}
 	}
 	sb.WriteString(decls)
@@ -306,12 +334,9 @@ func (c *FnCtx) batchText(obs []*Oblig) string {
 	sb.WriteString(preludeExtra)
 	sb.WriteString(c.sorts.declText())
 	for i, ax := range preludeAxioms {
-		for _, s := range preludeAxiomSyms[i] {
-			if syms[s] {
-				sb.WriteString(ax)
-				sb.WriteString("\n")
-				break
-			}
+		if preludeRelevant(i, syms) {
+			sb.WriteString(ax)
+			sb.WriteString("\n")
 		}
 	}
 	sb.WriteString(decls)
@@ -436,7 +461,13 @@ func solveObligs(obs []*Oblig, cfg *solverCfg) {
 			}
 			var r solverResult
 			if o.Cover {
+				// vacuity guard: no solver may refute the reachability of the point
 				r = runSolver(context.Background(), "z3-new", file, 2000, cfg.seed)
+				if r.status != "unsat" {
+					if r2 := runSolver(context.Background(), "z3", file, 2000, cfg.seed); r2.status == "unsat" {
+						r = r2
+					}
+				}
 			} else {
 				r = discharge(file, cfg)
 			}
